@@ -468,6 +468,7 @@ struct Pipeline {
         switch (op.kind) {
             case O_QR: {
                 CDNS::GenericQueryResponse rec = g.qr(cur_tps());
+                if (plan.sw.force_storable && !rec.asn) rec.asn = std::string("AS") + std::to_string(i);
                 model::Hints h = model::Hints::of(M.params[M.cur.set]);
                 ref::MRec e = model::expect_qr(rec, h, (h.qr >> 11) & 1), alt = model::expect_qr(rec, h, true);
                 if (e.empty() != alt.empty()) rec.response_questions = boost::none;  // storability must not hinge on the unconstrained member
